@@ -9,4 +9,5 @@ import UxVerif.Model.Incidence
 import UxVerif.Lemmas.Keyed
 import UxVerif.Props.C03
 import UxVerif.Model.Aggregate
+import UxVerif.Lemmas.Parts
 import UxVerif.Props.C17
